@@ -1,4 +1,9 @@
-(* C05 — Prefix iterators yield exactly the entries sharing the prefix, in order.  Statements only. *)
+(* C05 — Prefix iterators yield exactly the entries sharing the prefix, in order.  Statements only.
+   C05_prefix / C05_rev_prefix: on every well-formed store, and so (the C05_written theorems) on every file the
+   writer model finishes from a non-empty ascending input, the transcribed iterators collect, up to
+   their first None, exactly the entries whose key starts with the prefix, in order / in reverse.
+   The reverse iterator's statement assumes keys and prefix are byte strings (every element < 256):
+   advance_key increments a byte.  fuel bounds the next() calls of the executable collect loop. *)
 From Grenad.model Require Import Base Block Reader Spec Iter.
 From Grenad.proofs Require Import IterProofs SpecProofs.
 
@@ -28,3 +33,42 @@ Example C05_advance_examples :
   advance_key [1; 255; 255] = Some [2] /\ advance_key [255; 255] = None /\ advance_key [] = None /\
   advance_key [0; 7] = Some [0; 8].
 Proof. vm_compute. repeat split; reflexivity. Qed.
+
+(* ================= the iterators over the multi-level cursor ================= *)
+From Grenad.model Require Import Trailer Writer.
+From Grenad.proofs Require Import ReaderRefine WriterStore IterRefine WrittenIter.
+
+Theorem C05_prefix : forall ld root levels bstore, wf_store ld root levels bstore ->
+  forall p fuel, (S (length (content root levels bstore)) < fuel)%nat ->
+  collect (prefix_next (cstep ld root levels) p) fuel iter_new = Done (prefix_spec (content root levels bstore) p).
+Proof. exact R_prefix_fwd. Qed.
+Print Assumptions C05_prefix.
+
+Theorem C05_rev_prefix : forall ld root levels bstore, wf_store ld root levels bstore ->
+  forall p fuel, Forall (fun e => wf_bytes (fst e)) (content root levels bstore) -> wf_bytes p ->
+  (S (length (content root levels bstore)) < fuel)%nat ->
+  collect (rev_prefix_next (cstep ld root levels) p) fuel iter_new = Done (rev (prefix_spec (content root levels bstore) p)).
+Proof. exact R_prefix_bwd. Qed.
+Print Assumptions C05_rev_prefix.
+
+Theorem C05_written_prefix : forall compress decompress c,
+  (forall b z, compress (wc_codec c) (wc_level c) b = Done z -> decompress (wc_codec c) z = Done b) ->
+  forall es i s lg m, wc_levels c < 256 -> 1 <= wc_interval c ->
+  w_run_gen vsink vs_wr vs_fl vs_count compress c vs_empty es = (i, Done (s, lg, m)) ->
+  es <> [] -> sorted_strictb (map fst es) = true ->
+  len (vs_bytes s) < 2^64 -> mem_ok lg ->
+  forall p fuel, (S (length es) < fuel)%nat ->
+  collect (prefix_next (cstep (load_block decompress (vs_bytes s) (m_codec m)) (m_root m) (m_levels m)) p) fuel iter_new = Done (prefix_spec es p).
+Proof. exact written_prefix_fwd. Qed.
+Print Assumptions C05_written_prefix.
+
+Theorem C05_written_rev_prefix : forall compress decompress c,
+  (forall b z, compress (wc_codec c) (wc_level c) b = Done z -> decompress (wc_codec c) z = Done b) ->
+  forall es i s lg m, wc_levels c < 256 -> 1 <= wc_interval c ->
+  w_run_gen vsink vs_wr vs_fl vs_count compress c vs_empty es = (i, Done (s, lg, m)) ->
+  es <> [] -> sorted_strictb (map fst es) = true ->
+  len (vs_bytes s) < 2^64 -> mem_ok lg ->
+  forall p fuel, Forall (fun e => wf_bytes (fst e)) es -> wf_bytes p -> (S (length es) < fuel)%nat ->
+  collect (rev_prefix_next (cstep (load_block decompress (vs_bytes s) (m_codec m)) (m_root m) (m_levels m)) p) fuel iter_new = Done (rev (prefix_spec es p)).
+Proof. exact written_prefix_bwd. Qed.
+Print Assumptions C05_written_rev_prefix.
